@@ -110,10 +110,31 @@ func IDs(gs []G) map[int]bool {
 }
 
 // Lib returns the library goroutines not in the baseline set.
-func Lib(gs []G, baseline map[int]bool) []G {
-	var out []G
+func Lib(gs []G, baseline map[int]bool) []G { return LibOwned(gs, baseline, nil) }
+
+// LibOwned is Lib plus the goroutines that the standard library started on the library's behalf: created
+// by code outside the harness, inside one of the owner goroutines (the goroutine that runs Stream) or
+// inside a library goroutine that is still alive - a context watcher, a timer, a dialer.
+func LibOwned(gs []G, baseline map[int]bool, owners map[int]bool) []G {
+	lib := map[int]bool{}
+	for id := range owners {
+		lib[id] = true
+	}
 	for _, g := range gs {
 		if !baseline[g.ID] && IsLib(g) {
+			lib[g.ID] = true
+		}
+	}
+	var out []G
+	for _, g := range gs {
+		if baseline[g.ID] {
+			continue
+		}
+		switch {
+		case IsLib(g):
+			out = append(out, g)
+		case owners != nil && !owners[g.ID] && g.Parent != 0 && lib[g.Parent] && g.Creator != "" &&
+			!strings.HasPrefix(g.Creator, "verif/") && !strings.HasPrefix(g.Creator, "testing."):
 			out = append(out, g)
 		}
 	}
@@ -142,11 +163,18 @@ func HasFrame(g G, sub string) bool {
 
 // WaitNoLib waits until no library goroutine outside the baseline remains, up
 // to the bound; it returns the survivors of the last probe.
-func WaitNoLib(baseline map[int]bool, bound time.Duration) []G {
+func WaitNoLib(baseline map[int]bool, bound time.Duration, owners ...int) []G {
+	var own map[int]bool
+	if len(owners) > 0 {
+		own = map[int]bool{}
+		for _, id := range owners {
+			own[id] = true
+		}
+	}
 	deadline := time.Now().Add(bound)
 	sleep := 50 * time.Microsecond
 	for {
-		left := Lib(Probe(), baseline)
+		left := LibOwned(Probe(), baseline, own)
 		if len(left) == 0 || time.Now().After(deadline) {
 			return left
 		}
